@@ -331,6 +331,44 @@ def two_sets_case(cfg, copied):
     return Case(cname, body, goals, family="two_function_sets/" + ("fast" if copied else "plain"), params=dict(copied=copied, **cfg.params()))
 
 
+def vector_parameter_case(cfg, copied):
+    """function sets whose parameter has more than one column (one R2 parameter / two scalar parameter variables):
+    function i is f(param_i, .) with ALL components of row i"""
+    cname = "vector_parameter/%s/%s" % (cfg.name, "fast" if copied else "plain")
+
+    def body(env):
+        sens = env.tensor("sens", (cfg.nsens, 1))
+        net, fs = build(env, cfg, copied, {}, sens=sens)
+        x = env.tensor("x", (cfg.nloc, cfg.X.dim))
+        tin = Points(x, cfg.X)
+        p2 = env.tensor("fp2", (cfg.nfun, 2))
+        P2 = tp.spaces.R2("p")
+        PA, PB = tp.spaces.R1("pa"), tp.spaces.R1("pb")
+
+        def fam(s, p):
+            v = p[..., 0:1] * s * s + p[..., 1:2] * s
+            return torch.cat([v, v - s], dim=-1) if cfg.fdim == 2 else v
+
+        def fam2(s, pa, pb):
+            v = pa * s * s + pb * s
+            return torch.cat([v, v - s], dim=-1) if cfg.fdim == 2 else v
+
+        vals = fam(sens.unsqueeze(0), p2.unsqueeze(1))
+        ref = net(tin, vals.clone())
+        set_vec = CustomFunctionSet(fs, tp.samplers.DataSampler(Points(p2, P2)), fam)
+        o1 = net(tin, set_vec)
+        set_two = CustomFunctionSet(fs, tp.samplers.DataSampler(Points(p2, PA * PB)), fam2)
+        o2 = net(tin, set_two)
+        return dict(ref=ref, vec=o1, two=o2)
+
+    def goals(o, L, env):
+        g = G(L, env)
+        yield from g.cells("one_R2_parameter", o["vec"], o["ref"])
+        yield from g.cells("two_scalar_parameters", o["two"], o["ref"])
+
+    return Case(cname, body, goals, family="vector_parameter/" + ("fast" if copied else "plain"), params=dict(copied=copied, **cfg.params()))
+
+
 def resupply_case(cfg, copied):
     """history: the SAME branch-input object is supplied again after the weights changed (an optimizer step /
     load_state_dict) and after its buffer was refilled in place: the output is the inner product for the CURRENT
@@ -534,6 +572,8 @@ def cases(tier):
             cs.append(supply_case(cfg, copied))
             cs.append(resupply_case(cfg, copied))
             cs.append(two_sets_case(cfg, copied))
+            if cfg is cfgs[0] or not quick:
+                cs.append(vector_parameter_case(cfg, copied))
         for layout in ("coords", "leaf3d", "leaf2d"):
             cs.append(fast_case(cfg, layout))
     acts = ("cube",) if quick else ("cube", "tanh", "square")
